@@ -15,7 +15,7 @@ use std::{
 use mio::Token;
 use sozu_command::logging::ansi_palette;
 
-use super::{GenericHttpStream, Position};
+use super::{GenericHttpStream, Position, h2::DEFAULT_INITIAL_WINDOW_SIZE};
 use crate::metrics::names;
 use crate::{
     L7ListenerHandler, ListenerHandler, Protocol, SessionMetrics, pool::Pool,
@@ -54,7 +54,13 @@ impl StreamState {
 }
 
 pub struct Stream {
+    /// Send window towards the frontend peer (HTTP/2 client), RFC 9113 §6.9.
     pub window: i32,
+    /// Send window towards the HTTP/2 backend carrying this stream. The two
+    /// peers advertise their windows independently, so the credit granted by
+    /// one must never be spent on the other. (Re)initialised from the backend's
+    /// SETTINGS_INITIAL_WINDOW_SIZE when the stream is attached to it.
+    pub back_window: i32,
     pub attempts: u8,
     pub state: StreamState,
     /// True when the frontend connection has received end_of_stream from the client.
@@ -147,6 +153,7 @@ impl Stream {
             state: StreamState::Idle,
             attempts: 0,
             window: i32::try_from(window).unwrap_or(i32::MAX),
+            back_window: DEFAULT_INITIAL_WINDOW_SIZE as i32,
             front_received_end_of_stream: false,
             back_received_end_of_stream: false,
             front_data_received: 0,
@@ -242,6 +249,16 @@ impl Stream {
         front_done && back_done
     }
 
+    /// The send window of this stream on the connection at `position`: the
+    /// one granted by the backend for `Position::Client`, by the frontend peer
+    /// for `Position::Server`.
+    pub fn send_window_mut(&mut self, position: &Position) -> &mut i32 {
+        match position {
+            Position::Client(..) => &mut self.back_window,
+            Position::Server => &mut self.window,
+        }
+    }
+
     pub fn split(&mut self, position: &Position) -> StreamParts<'_> {
         // Pre: the front buffer always parses requests and the back buffer
         // always parses responses. `split` only re-labels them as read/write
@@ -258,7 +275,7 @@ impl Stream {
         );
         match position {
             Position::Client(..) => StreamParts {
-                window: &mut self.window,
+                window: &mut self.back_window,
                 rbuffer: &mut self.back,
                 wbuffer: &mut self.front,
                 received_end_of_stream: &mut self.back_received_end_of_stream,
